@@ -261,7 +261,13 @@ def special(e, rng, machine, depth=0):
         e.emit(0x32); e.word(rng.randrange(0x5B00, 0x10000))
     else:           # 128K paging: page, touch 0xC000 area, possibly lock
         v = rng.choice((rng.randrange(8), 0x10 | rng.randrange(8), rng.randrange(32), 0x20 | rng.randrange(32), rng.randrange(256)))
-        e.emit(0x01); e.word(rng.choice((0x7FFD, 0x7FFD, 0x7FFD, 0x3FFD, 0x00FD, 0x7DFD))); e.emit(0x3E, v, 0xED, 0x79)
+        if rng.random() < 0.2:
+            # the same write through OUTI: port (B-1):C, value from (HL)
+            hp = rng.choice((0x7FFD, 0x7FFD, 0x3FFD, 0x00FD, 0xFFFD, 0xBFFD))
+            a0 = rng.randrange(0x5B00, 0xBF00)
+            e.emit(0x21); e.word(a0); e.emit(0x36, v, 0x01); e.word((((hp >> 8) + 1) & 0xFF) << 8 | (hp & 0xFF)); e.emit(0xED, rng.choice((0xA3, 0xAB)))
+        if rng.random() < 0.85:
+            e.emit(0x01); e.word(rng.choice((0x7FFD, 0x7FFD, 0x7FFD, 0x3FFD, 0x00FD, 0x7DFD))); e.emit(0x3E, v ^ rng.choice((0, 0, 1, 2, 0x10)), 0xED, 0x79)
         if rng.random() < 0.35:
             # a second write that keeps the mapping and changes only the lock bit / the unused bits
             e.emit(0x3E, v ^ rng.choice((0x20, 0x20, 0x40, 0x80, 0xE0)), 0xED, 0x79)
